@@ -77,3 +77,26 @@ pub fn handles() {
     use std::str::FromStr;
     println!("from_u64(5)={} from_u32(0)={} from_str(foo)={}", Handle::from_u64(5).value(), Handle::from_u32(0).value(), Handle::from_str("foo").unwrap().value());
 }
+
+/// A guarded table holds a string whose own guard is gone; a collection must keep the string.
+pub fn guard_children() {
+    use cao_lang::prelude::*;
+    use cao_lang::verif_hooks as vh;
+    vh::quarantine(true);
+    let mut vm = Vm::new(()).unwrap();
+    let mut t = vm.init_table().unwrap();
+    {
+        let mut s = vm.init_string("a string that only the guarded table refers to").unwrap();
+        let sv = Value::Object(std::ptr::NonNull::from(&mut *s));
+        t.as_table_mut().unwrap().insert(sv, 1i64).unwrap();
+    } // guard of the string dropped here
+    println!("objects before: {}", vh::object_count(&vm.runtime_data));
+    vh::force_gc_at(Some(None));
+    let _g = vm.init_string("trigger").unwrap(); // allocation => forced collection
+    vh::force_gc_at(None);
+    println!("objects after the collection: {}", vh::object_count(&vm.runtime_data));
+    match vh::heap_audit(&vm.runtime_data) {
+        Ok(st) => println!("audit ok: {:?}", st),
+        Err(e) => println!("AUDIT FAILED: {}", e),
+    }
+}
